@@ -9,6 +9,7 @@ import NmVerif.NN.NormLemmas
 import NmVerif.NN.BatchNormLemmas
 import NmVerif.NN.AxisLemmas
 import NmVerif.NN.ChanLemmas
+import NmVerif.NN.GroupNormLemmas
 /-
   C17 — neural-network routines equal their reference (PyTorch) definitions.
 
@@ -539,6 +540,120 @@ theorem instance_norm_eq_def {α : Type} (add sub mul div : α → α → α) (s
 /-- non-vacuity (2d): input (2,3,2,2), element `[1,2] ++ [0,1]` takes its statistics over the four `[1,2,r₀,r₁]` -/
 example : Pos ([2, 3] ++ [2, 2]) ∧ InShape [0, 1] [2, 2] ∧
     (allIdx [2, 2]).map ([1, 2] ++ ·) = [[1, 2, 0, 0], [1, 2, 0, 1], [1, 2, 1, 0], [1, 2, 1, 1]] := by decide
+
+/-- the channel-splitting index map of `group_norm`'s reshape: `[n, g, j] ++ r ↦ [n, g·cg + j] ++ r` -/
+def mergeChan (cg : Nat) : Idx → Idx
+  | n :: g :: j :: r => [n, g * cg + j] ++ r
+  | d => d
+
+/-- **group_norm**: input `(N, G·cg) ++ sp` (`G` groups of `cg` consecutive channels, any spatial axes, possibly none),
+    weight and bias `(G·cg)`.  The composition (reshape to `(N, G, cg) ++ sp`, mean / var over the axes `2 ..` with
+    keepdims, normalise, reshape back, per-channel weight and bias reshaped to `(1, C, 1, …, 1)`) exists, keeps the
+    shape, and the element `[n, c] ++ q` is `((x[n,c,q] − μ) / sqrt(V/m + eps)) · w[c] + b[c]` with the statistics taken
+    over exactly the `m = cg · ∏ sp` elements `x[n, (c / cg)·cg + j, r]`, `j < cg`, `r` over `sp` — the channels of the
+    group `c / cg` of sample `n`, in row-major order (PyTorch's consecutive-channel groups). -/
+theorem group_norm_eq_def {α : Type} (add sub mul div : α → α → α) (sqabs sqrt : α → α) (divn : α → Nat → α) (eps : α)
+    (x w b : Arr α) (N G cg : Nat) (sp : Shape) (hx : x.shape = [N, G * cg] ++ sp) (hw : w.shape = [G * cg])
+    (hb : b.shape = [G * cg]) (hp : Pos ([N, G * cg] ++ sp)) :
+    ∃ v, groupNorm add sub mul div sqabs sqrt divn eps x w b G = some v ∧ v.shape = [N, G * cg] ++ sp ∧
+      ∀ n c q, n < N → c < G * cg → InShape q sp →
+        (v.get ([n, c] ++ q) = (normAt add sub div sqabs sqrt divn eps x.get
+            ((List.range cg).flatMap fun j => (allIdx sp).map fun r => [n, c / cg * cg + j] ++ r) ([n, c] ++ q)).map
+          fun y => add (mul y (w.get [c])) (b.get [c])) ∧
+        ∃ y, v.get ([n, c] ++ q) = some y := by
+  have hC : 0 < G * cg := hp _ (by simp)
+  have hG : 0 < G := Nat.pos_of_mul_pos_right hC
+  have hcg : 0 < cg := Nat.pos_of_mul_pos_left hC
+  have hN : 0 < N := hp _ (by simp)
+  have hpsp : Pos sp := fun z hz => hp z (by simp [hz])
+  have hxl : x.shape.length = 2 + sp.length := by rw [hx]; simp; omega
+  -- the reshapes
+  obtain ⟨xg, hg1, hg2, hg3⟩ := reshape_split x N G cg sp hx
+  obtain ⟨w', hw1, hw2, hw3⟩ := reshape_1C w (G * cg) sp.length hw
+  obtain ⟨b', hb1, hb2, hb3⟩ := reshape_1C b (G * cg) sp.length hb
+  have hgs : groupNormReshape x.shape G = some ([N, G, cg] ++ sp) := by
+    rw [hx]
+    simp only [List.cons_append, List.nil_append, groupNormReshape, if_neg (Nat.pos_iff_ne_zero.1 hG),
+      Nat.mul_div_cancel_left cg hG]
+  have hws : groupNormArgsReshape x.shape w.shape = some ((List.replicate (2 + sp.length) 1).set 1 (prod w.shape)) := by
+    simp only [groupNormArgsReshape, hxl]; rw [if_neg (by omega)]
+  have hbs : groupNormArgsReshape x.shape w.shape = some ((List.replicate (2 + sp.length) 1).set 1 (prod b.shape)) := by
+    rw [hws, hw, hb]
+  -- statistics over the axes 2.. of the reshaped input
+  have hax : groupNormAxis x.shape = (List.range (1 + sp.length)).map fun (i : Nat) => ((i + 2 : Nat) : Int) := by
+    simp only [groupNormAxis, hxl]; congr 2; omega
+  have hpg : Pos ([N, G] ++ cg :: sp) := by
+    intro z hz
+    simp only [List.cons_append, List.nil_append, List.mem_cons] at hz
+    rcases hz with rfl | rfl | rfl | hz
+    · exact hN
+    · exact hG
+    · exact hcg
+    · exact hpsp z hz
+  have hgl : xg.shape.length = 3 + sp.length := by rw [hg2]; simp; omega
+  obtain ⟨hva, hR⟩ := groupNormAxis_valid sp.length
+  obtain ⟨nrm, hn1, hn2, hn3⟩ := normCore_block add sub div sqabs sqrt divn eps xg [N, G] (cg :: sp) (groupNormAxis x.shape)
+    hg2 hpg (by rw [hgl, hax]; exact hva) (by rw [hgl, hax, hR]; simp [Nat.add_comm])
+  obtain ⟨nr, hr1, hr2, hr3⟩ := reshape_merge nrm N G cg sp hn2 hcg
+  obtain ⟨pm, hm1, hm2, hm3⟩ := bin_1C mul nr w' (fun c => w.get [c]) N (G * cg) sp hp hr2 hw2 hw3
+  obtain ⟨v, ha1, ha2, ha3⟩ := bin_1C add pm b' (fun c => b.get [c]) N (G * cg) sp hp hm2 hb2 hb3
+  refine ⟨v, ?_, ha2, fun n c q hn hc hq => ?_⟩
+  · simp only [groupNorm, hgs, hws, Option.bind_some, hg1, hw1]
+    rw [show (List.replicate (2 + sp.length) 1).set 1 (prod w.shape) = (List.replicate (2 + sp.length) 1).set 1 (prod b.shape) by rw [hw, hb],
+      hb1]
+    simp only [Option.bind_some, hn1]
+    rw [← hx] at hr1
+    simp only [hr1, Option.bind_some, hm1]
+    exact ha1
+  · have hgc : c / cg < G := by apply Nat.div_lt_of_lt_mul; rw [Nat.mul_comm]; exact hc
+    have hjc : c % cg < cg := Nat.mod_lt _ hcg
+    have hc' : c / cg * cg + c % cg = c := by rw [Nat.mul_comm]; exact Nat.div_add_mod c cg
+    have hng : InShape [n, c / cg] [N, G] := by simp [InShape]; exact ⟨hn, hgc⟩
+    have hjq : InShape (c % cg :: q) (cg :: sp) := ⟨hjc, hq⟩
+    have hnorm := hn3 [n, c / cg] (c % cg :: q) hng hjq
+    -- translate the statistics of the reshaped input back to `x`
+    have htr := normAt_congr add sub div sqabs sqrt divn eps xg.get x.get (mergeChan cg)
+      ((allIdx (cg :: sp)).map ([n, c / cg] ++ ·)) ([n, c / cg] ++ c % cg :: q)
+      (by
+        intro k hk
+        simp only [List.mem_map] at hk
+        obtain ⟨jr, hjr, rfl⟩ := hk
+        have hjr' := (NmVerif.Props.C01.mem_allIdx_iff (cg :: sp) jr).1 hjr
+        cases jr with
+        | nil => simp [InShape] at hjr'
+        | cons j r => exact hg3 n (c / cg) j r hn hgc hjr'.1 hjr'.2)
+      (hg3 n (c / cg) (c % cg) q hn hgc hjc hq)
+    have hmapG : ((allIdx (cg :: sp)).map ([n, c / cg] ++ ·)).map (mergeChan cg)
+        = (List.range cg).flatMap fun j => (allIdx sp).map fun r => [n, c / cg * cg + j] ++ r := by
+      simp only [allIdx, List.map_flatMap, List.map_map]
+      rfl
+    have hτi : mergeChan cg ([n, c / cg] ++ c % cg :: q) = [n, c] ++ q := by
+      show [n, c / cg * cg + c % cg] ++ q = _
+      rw [hc']
+    rw [htr, hmapG, hτi] at hnorm
+    have hval : v.get ([n, c] ++ q) = (normAt add sub div sqabs sqrt divn eps x.get
+        ((List.range cg).flatMap fun j => (allIdx sp).map fun r => [n, c / cg * cg + j] ++ r) ([n, c] ++ q)).map
+          fun y => add (mul y (w.get [c])) (b.get [c]) := by
+      rw [ha3 n c q hn hc hq, hm3 n c q hn hc hq, hr3 n c q hn hc hq]
+      show ((nrm.get ([n, c / cg] ++ c % cg :: q)).map _).map _ = _
+      rw [hnorm, Option.map_map]
+      rfl
+    refine ⟨hval, ?_⟩
+    have hne : ((List.range cg).flatMap fun j => (allIdx sp).map fun r => [n, c / cg * cg + j] ++ r) ≠ [] := by
+      rw [← hmapG]
+      have hq' := (NmVerif.Props.C01.mem_allIdx_iff (cg :: sp) (c % cg :: q)).2 hjq
+      intro h
+      have := List.mem_map_of_mem (f := mergeChan cg) (List.mem_map_of_mem (f := ([n, c / cg] ++ ·)) hq')
+      rw [h] at this
+      simp at this
+    obtain ⟨y, hy⟩ := normAt_defined add sub div sqabs sqrt divn eps x.get ([n, c] ++ q) hne
+    exact ⟨_, by rw [hval, hy]; rfl⟩
+
+/-- non-vacuity: C = 4 = 2·2, spatial (2): element `[0, 3] ++ [1]` (group 1) takes its statistics over
+    `x[0,2,·]` and `x[0,3,·]` -/
+example : Pos ([1, 2 * 2] ++ [2]) ∧ 3 < 2 * 2 ∧ InShape [1] [2] ∧
+    ((List.range 2).flatMap fun j => (allIdx [2]).map fun r => [0, 3 / 2 * 2 + j] ++ r) = [[0, 2, 0], [0, 2, 1], [0, 3, 0], [0, 3, 1]] := by
+  decide
 
 /-! ## convolution -/
 
